@@ -11,7 +11,7 @@ Z3_VERSION = "z3-" + z3.get_version_string()
 
 def _cvc5(smt2, timeout_s):
     with tempfile.NamedTemporaryFile("w", suffix=".smt2", delete=False) as f:
-        smt2 = smt2.replace("ubv_to_int", "bv2nat")
+        smt2 = smt2.replace("ubv_to_int", "bv2nat").replace("int_to_bv", "int2bv")
         f.write("(set-logic ALL)\n" + smt2 + "\n(check-sat)\n")
         path = f.name
     try:
@@ -23,6 +23,62 @@ def _cvc5(smt2, timeout_s):
         return "unknown"
     finally:
         os.unlink(path)
+
+
+PORTFOLIO = [({}, 0.5), ({"smt.mbqi": False}, 0.6), ({"smt.random_seed": 7}, 0.5), ({"smt.random_seed": 11}, 0.5)]
+
+_sym_cache = {}
+
+
+def _symbols(t):
+    k = t.get_id()
+    r = _sym_cache.get(k)
+    if r is not None:
+        return r
+    out = set()
+    seen = set()
+    stack = [t]
+    while stack:
+        x = stack.pop()
+        xi = x.get_id()
+        if xi in seen:
+            continue
+        seen.add(xi)
+        if z3.is_quantifier(x):
+            stack.append(x.body())
+            continue
+        if z3.is_app(x):
+            d = x.decl()
+            if d.kind() == z3.Z3_OP_UNINTERPRETED:
+                out.add(d.name())
+            stack.extend(x.children())
+    _sym_cache[k] = out
+    return out
+
+
+def _relevant(ob):
+    """assumptions reachable from the goal through shared uninterpreted symbols (quantifier-free assumptions
+    propagate reachability; quantified ones are included when they touch the reached set but do not extend it)"""
+    from .cvc import has_quantifier
+    try:
+        reach = set(_symbols(ob.goal))
+        items = [(a, _symbols(a), has_quantifier(a)) for a in ob.pc]
+        chosen = [False] * len(items)
+        changed = True
+        rounds = 0
+        while changed and rounds < 4:
+            changed = False
+            rounds += 1
+            for q, (a, sy, hq) in enumerate(items):
+                if chosen[q] or not (sy & reach):
+                    continue
+                chosen[q] = True
+                if not hq and not (sy <= reach):
+                    reach |= sy
+                    changed = True
+        return [a for q, (a, sy, hq) in enumerate(items) if chosen[q] or not sy]
+    except Exception:
+        return None
 
 
 def discharge(ob, timeout_s=30, use_cvc5=True):
@@ -46,12 +102,49 @@ def discharge(ob, timeout_s=30, use_cvc5=True):
                 ob.backend = Z3_VERSION
                 ob.status = "discharged"
                 return ob
-    s = z3.Solver()
-    s.set("timeout", int(timeout_s * 1000))
+    # stage 1: all assumptions, default configuration, short budget
+    sq = z3.Solver()
+    sq.set("timeout", 2500)
     for a in ob.pc:
-        s.add(a)
-    s.add(z3.Not(ob.goal))
-    r = s.check()
+        sq.add(a)
+    sq.add(z3.Not(ob.goal))
+    rq = sq.check()
+    if rq == z3.unsat:
+        ob.time = time.time() - t0
+        ob.backend = Z3_VERSION
+        ob.status = "discharged"
+        return ob
+    # stage 1b (symbol relevance): only the assumptions connected to the goal through shared symbols
+    rel = _relevant(ob) if rq == z3.unknown else None
+    if rel is not None and len(rel) < len(ob.pc):
+        s1 = z3.Solver()
+        s1.set("timeout", 4000)
+        for a in rel:
+            s1.add(a)
+        s1.add(z3.Not(ob.goal))
+        if s1.check() == z3.unsat:
+            ob.time = time.time() - t0
+            ob.backend = Z3_VERSION
+            ob.status = "discharged"
+            return ob
+    # stage 2 (portfolio): quantifier instantiation is unstable on identical input, so several
+    # configurations get a short budget each; `unsat` from any of them is a proof
+    r = z3.unknown
+    s = None
+    budget = max(1.0, timeout_s)
+    for cfg, share in PORTFOLIO:
+        s = z3.Solver()
+        s.set("timeout", int(budget * share * 1000))
+        for k_, v_ in cfg.items():
+            s.set(k_, v_)
+        for a in ob.pc:
+            s.add(a)
+        s.add(z3.Not(ob.goal))
+        r = s.check()
+        if r == z3.unsat or (r == z3.sat and not cfg):
+            break
+        if r == z3.sat:
+            r = z3.unknown     # only the default configuration's models are used
     ob.time = time.time() - t0
     ob.backend = Z3_VERSION
     if r == z3.unsat:
@@ -87,8 +180,44 @@ def discharge(ob, timeout_s=30, use_cvc5=True):
     return ob
 
 
+def _conjuncts(g, depth=0):
+    if z3.is_and(g) and depth < 3:
+        out = []
+        for ch in g.children():
+            out.extend(_conjuncts(ch, depth + 1))
+        return out
+    return [g]
+
+
 def discharge2(ob, timeout_s):
-    """second attempt on an obligation z3 left open: cvc5, then z3 with the full budget"""
+    """second attempt on an obligation z3 left open: conjunct by conjunct, cvc5, then the full budget"""
+    t0 = time.time()
+    parts = _conjuncts(ob.goal)
+    if len(parts) > 1:
+        # one query per conjunct: smaller, and the undecided clause is named in the output
+        class _O:
+            pass
+        bad = []
+        for q, g in enumerate(parts):
+            o = _O()
+            o.pc, o.goal, o.model, o.output, o.status, o.backend, o.time = ob.pc, g, None, "", None, None, 0.0
+            discharge(o, min(timeout_s, 8), use_cvc5=False)
+            if o.status != "discharged":
+                bad.append((q, o))
+        ob.time += time.time() - t0
+        if not bad:
+            ob.status = "discharged"
+            ob.backend = Z3_VERSION
+            ob.output += "; discharged conjunct by conjunct (%d)" % len(parts)
+            return ob
+        ob.output += "; open conjuncts: %s" % ", ".join("#%d %s" % (q, str(o.goal)[:80].replace("\n", " ")) for q, o in bad[:3])
+        if len(bad) == 1 and bad[0][1].status == "failed":
+            ob.status = "failed"
+            ob.model = bad[0][1].model
+            return ob
+        # continue below on the first open conjunct only (the others are proved)
+        ob_goal_saved = ob.goal
+        ob.goal = bad[0][1].goal if len(bad) == 1 else ob.goal
     t0 = time.time()
     s = z3.Solver()
     for a in ob.pc:
@@ -105,8 +234,20 @@ def discharge2(ob, timeout_s):
         ob.time += time.time() - t0
         return ob
     ob.output += "; cvc5: %s" % r2
-    s.set("timeout", int(timeout_s * 1000))
-    r = s.check()
+    r = z3.unknown
+    for cfg, share in PORTFOLIO:
+        s = z3.Solver()
+        s.set("timeout", int(timeout_s * share * 1000))
+        for k_, v_ in cfg.items():
+            s.set(k_, v_)
+        for a in ob.pc:
+            s.add(a)
+        s.add(z3.Not(ob.goal))
+        r = s.check()
+        if r == z3.unsat or (r == z3.sat and not cfg):
+            break
+        if r == z3.sat:
+            r = z3.unknown
     ob.time += time.time() - t0
     if r == z3.unsat:
         ob.status = "discharged"
